@@ -367,6 +367,28 @@ type PrioM struct{}
 
 func (*PrioM) Priority() {}
 
+// FactoryAware / RegistryAware: an ordinary component that ALSO is a factory post-processor or a definition-registry
+// post-processor ("factory aware" idiom), doing nothing in that role.  It is created, populated and initialised like
+// every other component; the model does not know the difference.
+type FactoryAware struct{}
+
+// In that role it only LOOKS: it lists the definitions known so far and asks for one that does not exist.
+func (*FactoryAware) PostProcessComponentFactory(f container.Factory) error {
+	if r := f.GetDefinitionRegistry(); r != nil {
+		_ = r.GetMetas()
+		_ = r.GetMetaByName("no such component")
+	}
+	return nil
+}
+
+type RegistryAware struct{}
+
+func (*RegistryAware) PostProcessDefinitionRegistry(r container.DefinitionRegistry, _ any, name string) error {
+	_ = r.GetMetaByName(name)
+	_ = r.GetMetas()
+	return nil
+}
+
 // ---- observation ------------------------------------------------------------------------------------
 
 // pointFields: the component-property fields of a struct in the model's point order:
